@@ -33,6 +33,12 @@ PENDING_FINDINGS = [
 ]
 
 CHECKER = os.path.join(BUILD, "standin_checkpw")
+EXPECT_COV = {
+    "Pop3d": ["RetrDotStuffed", "TopLimited", "DeletedAtQuit", "RenamedAtQuit", "RefusedDeleted", "VanishedRetr", "MixedQuit",
+              "RsetUnmarks", "DroppedKeepsMarked"],
+    "Pop3Popup": ["Login", "ApopCrash", "PassBeforeUser", "RefusedBeforeLogin"],
+    "Pop3Blast": ["BlastStuffedPartialLast", "BlastTopCut", "BlastNoSeparatorAllHeader"],
+}
 
 
 # --------------------------------------------------------------------------------------------
@@ -230,7 +236,7 @@ def main():
     cfgb = ck.scratch.path("Pop3Blast.cfg")
     with open(cfgb, "w") as f:
         f.write("SPECIFICATION Spec\nCONSTANTS\n Alphabet = {10, 13, 46, 120}\n MaxLen = %d\n MaxTop = 3\n WordMod = 0\n"
-                "INVARIANT BlastAgrees\nINVARIANT BlastPrefix\nINVARIANT Framed\n" % blast_len)
+                "INVARIANT BlastAgrees\nINVARIANT BlastPrefix\nINVARIANT Framed\nINVARIANT Witnessed\n" % blast_len)
     cfgw = ck.scratch.path("Pop3dWrap.cfg")
     with open(cfgw, "w") as f:
         f.write("SPECIFICATION Spec\nCONSTANTS\n WordMod = 100\nINVARIANT Conforms\n")
@@ -268,16 +274,29 @@ def main():
     breaker = U.Breaker()
     alljobs = [("d", i, j) for i, j in enumerate(djobs)] + [("p", len(djobs) + i, j) for i, j in enumerate(pjobs)]
 
-    def one(item):
+    def one_with(item, brk, timeout):
         kind, idx, job = item
         if kind == "d":
-            return U.run_pop3d(pop3d, work, idx, job, breaker)
-        return U.run_popup(popup, CHECKER, work, idx, job, breaker)
+            return U.run_pop3d(pop3d, work, idx, job, brk, timeout)
+        return U.run_popup(popup, CHECKER, work, idx, job, brk, timeout)
+
+    def one(item):
+        return one_with(item, breaker, 5.0)
 
     t1 = time.time()
     results = sessions.pmap(one, alljobs)
     log("C19: %d sessions in %.1fs" % (len(alljobs), time.time() - t1))
     done = [(it, r) for it, r in zip(alljobs, results) if r is not None]
+    # a session that timed out may be the machine, not the server: run such sessions again with a long timeout
+    # (a few first; all of them if that shows the time-outs were not reproducible)
+    hung = [k for k, (it, r) in enumerate(done) if r.get("hung")]
+    if hung:
+        quiet = U.Breaker(limit=10 ** 9)
+        again = sessions.pmap(lambda k: one_with(done[k][0], quiet, 20.0), hung[:4])
+        if any(not r["hung"] for r in again):
+            again += sessions.pmap(lambda k: one_with(done[k][0], quiet, 20.0), hung[4:])
+        for k, r in zip(hung, again):
+            done[k] = (done[k][0], r)
     if not done:
         raise Infra("no session could be run")
     if breaker.open:
@@ -310,6 +329,12 @@ def main():
             continue
         if res.violated:
             ck.model_violation(name, res)
+        # non-vacuity: every interesting branch of the model was reached (witness lines printed by invariant Witnessed)
+        seen = set(re.findall(r'"COV (\w+)"', "\n".join(res.prints)))
+        missing = set(EXPECT_COV[module]) - seen
+        if missing:
+            raise Infra("model %s never reaches: %s" % (name, sorted(missing)))
+        ck.cov.setdefault("model_branches_witnessed", {})[module] = sorted(seen)
     if not a.replay:
         if models["Pop3d"].distinct < 1000 or models[plan[0][0]].distinct < 1000:
             raise Infra("model state space unexpectedly small")
@@ -329,7 +354,15 @@ def main():
         ck.count(key, nontrivial=nontriv)
     ck.cov["sessions_by_kind"] = ntags
     ck.cov["sessions_hung"] = breaker.n
-    for (kind, idx, job), r in (done[:3] + done[len(djobs) // 2:len(djobs) // 2 + 2] + done[-2:]):
+    picks, want = [], ["single", "enum", "random", "root", "popup", "popup"]
+    for (kind, idx, job), r in done:
+        tag = job.get("tag", "popup") if kind == "d" else "popup"
+        good = (kind == "d" and (r["root"] or (any(c["v"] == "DELE" for c in r["cmds"]) and r["files"] and r["cmds"][-1]["v"] == "QUIT"))) or \
+               (kind == "p" and any(i for i in r["invs"]))
+        if tag in want and good:
+            want.remove(tag)
+            picks.append(((kind, idx, job), r))
+    for (kind, idx, job), r in (picks or done[:2]):
         if kind == "d":
             ck.sample({"maildir": ["%s/%s (%d bytes)" % (f["d"], bytes(f["n"]).decode("latin-1"), len(f["x"])) for f in r["files"]],
                        "commands": ["XRM %d" % c["a"][0] if c["v"] == "XRM" else (c["v"] + " " + bytes(c["a"]).decode("latin-1")).strip() for c in r["cmds"]],
@@ -393,7 +426,8 @@ def main():
                     ([(c["v"] + " " + bytes(c["a"]).decode("latin-1")).strip()[:40] for c in r["cmds"]][:10], [p["c"] for p in r["reps"]][:10],
                      r["ex"], [bytes(i[0])[:60] if i else b"" for i in r["invs"]][:10], step))
         ck.violation(key, desc, job_to_json(kind, job))
-    ck.cov["pending_findings"] = sorted(pending)[:20]
+    ck.cov["pending_findings"] = sorted(pending)[:40]
+    ck.cov["pending_findings_count"] = len(pending)
     for key in sorted(pending)[:6]:
         print("PENDING-FINDING property=C19 %s (scan_ulong wrap-around, reported; see PENDING_FINDINGS in checks/c19.py)" % key)
     ck.finish()
